@@ -21,6 +21,8 @@ PROPS = {}
 PROPS["C01"] = {
     "tasks": lambda tier: table_tasks("table_c01") + [V(UDB + ":UnitDatabase.Convert"), V(UDB + ":UnitDatabase.GetInfo"), ("lemma_c01_compose", {})],
     "level": "proof",
+    "level_text": "Every row of each shipped filler (1548+1548+8 units): to-base/from-base closures, executed from their real AST on a symbolic real, are total, mutually inverse and strictly increasing on all reals (6 obligations per row). UnitDatabase.Convert and GetInfo are verified against case contracts over an arbitrary well-formed registry (result = frombase_target(tobase_source(x)); same unit returns the argument itself). Round trip, path independence and order preservation for every unit pair/triple then follow from a spec-level lemma over uninterpreted conversion functions. Unbounded in values, units and registry contents.",
+    "level_note": "floats are reals (exact equality proved where the property says 'up to rounding'); Python semantics as implemented by pyvc; registry invariant WF assumed for Convert/GetInfo inputs (established row by row in C14); z3 trusted",
     "trusted": [
         "z3 5.1.0 (python API); cvc5 1.0.3 only for z3's unknowns",
         "pyvc symbolic interpreter (this repository) for Python semantics",
